@@ -146,3 +146,12 @@ Definition entry_indexes_ref (x : sx) : sx := of_indexes (indexes_ref (map as_na
 Definition entry_pairs_ref (x : sx) : sx := of_triples (pairwise_ref (as_Zs (arg 0 x)) (as_Zs (arg 1 x))).
 Definition entry_pairs_all (x : sx) : sx :=
   of_triples (map canon (all_pairs_from (combine (as_Zs (arg 0 x)) (as_Zs (arg 1 x))))).
+
+(* ------------------------------------------------------------------ index.all_pairs *)
+(* all ordered non-identity pairs of n things, ordered so that the first m(m-1) rows are the
+   pairs of the first m things: for k = 0, 1, ... the pairs (0,k) .. (k-1,k), (k,0) .. (k,k-1) *)
+Definition all_pairs_block (k : nat) : list (nat * nat) :=
+  map (fun a => (a, k)) (seq 0 k) ++ map (fun b => (k, b)) (seq 0 k).
+Definition all_pairs_ref (n : nat) : list (nat * nat) := flat_map all_pairs_block (seq 0 n).
+Definition entry_all_pairs_ref (x : sx) : sx :=
+  L (map (fun p => L [I (Z.of_nat (fst p)); I (Z.of_nat (snd p))]) (all_pairs_ref (as_nat x))).
